@@ -27,8 +27,8 @@ fn gen(rng: &mut Rng, stratum: u64) -> Shape {
         }
         // many sub-blocks
         2 => {
-            let Al = *rng.pick(&[1usize, 2, 4, 8]);
-            let units = rng.range(1, 200) as usize;
+            let Al = *rng.pick(&[1usize, 2, 4, 8, 3, 5, 6, 10, 12, 255]);
+            let units = rng.range(1, 200.min(65535 / Al as u64)) as usize;
             let T = Al * units;
             let N = rng.range(1, units as u64) as usize;
             let Kt = rng.range(1, 12) as usize;
@@ -38,7 +38,7 @@ fn gen(rng: &mut Rng, stratum: u64) -> Shape {
         }
         // huge symbols and sub-block counts beyond 12 bits
         3 => {
-            let Al = *rng.pick(&[1usize, 2, 4, 8]);
+            let Al = *rng.pick(&[1usize, 2, 4, 8, 3, 6, 7, 12, 100]);
             let units = rng.range(2000 / Al as u64, 65535 / Al as u64) as usize;
             let T = Al * units;
             let N = match rng.below(3) {
@@ -147,7 +147,15 @@ fn run_case(ctx: &Ctx, s: &Shape, st: &Stats) {
             let mut dec = Decoder::new(cfg);
             let mut out = None;
             let mut lost_any = false;
-            for (z, be) in enc.get_block_encoders().iter().enumerate() {
+            // blocks complete in a random order (in order / reversed / shuffled)
+            let mut order: Vec<usize> = (0..s.Z).collect();
+            match rng.below(3) {
+                0 => {}
+                1 => order.reverse(),
+                _ => rng.shuffle(&mut order),
+            }
+            for z in order {
+                let be = &enc.get_block_encoders()[z];
                 let lose = rng.below(ks[z] as u64) as usize;
                 for (i, p) in be.source_packets().into_iter().enumerate() {
                     if i == lose {
@@ -291,7 +299,7 @@ pub fn run(ctx: &Ctx) -> i32 {
     ctx.floor("configs_with_TL_ne_TS", st.tl_ne_ts.load(Relaxed), 200);
     ctx.floor("configs_with_Z_gt_1_and_N_gt_1_and_padding", st.all3.load(Relaxed), 100);
     ctx.finish(
-        "valid configurations (F,T,Z,N,Al) from four strata (general small shapes; up to 255 blocks; up to 200 sub-blocks; symbol sizes up to 65535 with up to T/Al sub-blocks) with position-coded data; Encoder::get_encoded_packets(0) must equal, packet by packet, the list computed from RFC 4.4.1.2 (Partition[Kt,Z], Partition[T/Al,N], sub-symbol concatenation, zero padding of the tail only), calculate_block_offsets must equal the Partition blocks, and Decoder fed those packets must return the object; partition() compared with the wide-integer Partition on random pairs. non-trivial = Z>1 or N>1 or padding>0; distinct by shape",
+        "valid configurations (F,T,Z,N,Al; Al any value incl. non powers of two) from four strata (general small shapes; up to 255 blocks; up to 200 sub-blocks; symbol sizes up to 65535 with up to T/Al sub-blocks) with position-coded data; Encoder::get_encoded_packets(0) must equal, packet by packet, the list computed from RFC 4.4.1.2 (Partition[Kt,Z], Partition[T/Al,N], sub-symbol concatenation, zero padding of the tail only), calculate_block_offsets must equal the Partition blocks, and Decoder fed those packets must return the object; partition() compared with the wide-integer Partition on random pairs. non-trivial = Z>1 or N>1 or padding>0; distinct by shape",
         &["layout oracle written from RFC 6330 4.4.1.2 in the harness"],
         vec![],
     )
